@@ -29,14 +29,14 @@ RULE = (
     "histories of 2..4 sessions with overlapping subject sets and sibling aggregators on two files of one directory (one.tsv/two.tsv, results.model_a.tsv/results.model_b.tsv, run.tsv/run_2.tsv, a.b.tsv/a.tsv, res_panoptica_aggregator_tmp.tsv/res.tsv) or the same file name in two directories, two sessions inside one interpreter with the first object garbage-collected "
     "(interleaved in one process; in two processes where one exits first). Non-trivial = every crash point / history; "
     "distinct = (initial state, variant, k) resp. hash of the history."
-    ' Further: subject names that are prefixes, suffixes or substrings of one another, sessions on a relative output path, restart under another PYTHONHASHSEED, continuation (two threads, then a restart) of a file that an earlier run left with 5000-20000 complete rows, with new names that are suffixes / prefixes / substrings of recorded ones.'
+    ' Further: subject names that are prefixes, suffixes or substrings of one another, sessions on a relative output path, restart under another PYTHONHASHSEED, continuation (two threads, then a restart) of a file that an earlier run left with 5000-20000 complete rows, with new names that are suffixes / prefixes / substrings of recorded ones; a killed session and its restart in interpreters whose locale encoding is ASCII, with non-ASCII subject names.'
 )
 ASSUMPTIONS = [
     "process death is modelled by os._exit(137) between two traced operations: user-space buffers are lost, no exit handlers run",
     "mid-write death (torn row) is outside the statement and not injected",
     "a new process has fresh, unlocked module-level locks (re-created in the forked child)",
 ]
-MINIMUM = {"C17.big_file_sessions_judged": 1, "C17.crash_points_judged": 100, "C17.sibling_scenarios_judged": 8, "C17.session_histories_judged": 10}
+MINIMUM = {"C17.big_file_sessions_judged": 1, "C17.locale_restarts_judged": 2, "C17.crash_points_judged": 100, "C17.sibling_scenarios_judged": 8, "C17.session_histories_judged": 10}
 BUDGET_S = {"quick": 1200, "thorough": 900}
 SHARDS = {"quick": 16, "thorough": 900}
 EXHAUSTIVE = {"quick": True, "thorough": True}
@@ -61,6 +61,8 @@ def cases(tier, seed):
         yield {"fam": "hashseed", "i": i}
     for i in range(2 if tier == "quick" else 16):
         yield {"fam": "big_file", "i": i}
+    for i in range(4 if tier == "quick" else 40):
+        yield {"fam": "locale_restart", "i": i}
 
 
 def setup(ctx):
@@ -582,10 +584,81 @@ def big_file_sessions(ctx, i):
     shutil.rmtree(d, ignore_errors=True)
 
 
+def locale_restart(ctx, i):
+    """sessions in interpreters whose locale encoding is ASCII, non-ASCII subject names: a first session is killed after k
+    subjects, a second interpreter submits everything again; the reference is an uninterrupted session of the same subjects"""
+    import subprocess
+    from vf import harness
+    from vf.helpers import locale_restart as LR
+
+    r = gen.rng(ctx.seed, "c17loc", i)
+    d = tempfile.mkdtemp(prefix="c17l_", dir=os.environ.get("VERIF_TMP"))
+    env = dict(os.environ, LC_ALL="C", LANG="C", PYTHONUTF8="0", PYTHONCOERCECLOCALE="0", PYTHONIOENCODING="utf-8")
+    n = int(r.integers(3, len(LR.SUBJECTS) + 1))
+    idx = [int(x) for x in r.permutation(len(LR.SUBJECTS))[:n]]
+    kill_after = int(r.integers(1, n))
+
+    def sess(path, kill, ids, env=env):
+        p = subprocess.run([harness.PY, "-B"] + harness.own_flags() + ["-m", "vf.helpers.locale_restart", path, str(kill)] + [str(x) for x in ids],
+                           env=env, cwd=harness.VERIF, capture_output=True, text=True, timeout=600, encoding="utf-8")
+        try:
+            return json.loads(p.stdout.strip().splitlines()[-1])
+        except Exception:  # noqa: BLE001
+            return {"HELPER": (p.stdout + p.stderr)[-800:]}
+
+    ref_path, path = os.path.join(d, "ref.tsv"), os.path.join(d, "out.tsv")
+    det = {"family": "locale_restart", "subjects": [LR.SUBJECTS[k] for k in idx], "killed_after": kill_after}
+    feats = {"family": "locale_restart"}
+    ctx.count("evaluations")
+    try:
+        # the uninterrupted run: the same subjects in an interpreter with the usual UTF-8 locale (rows do not depend on the locale)
+        o0 = sess(ref_path, -1, idx, env=dict(os.environ, PYTHONIOENCODING="utf-8"))
+        if "HELPER" in o0 or "ERR" in o0:
+            ctx.errors.append({"case": {"fam": "locale_restart", "i": i}, "tb": "uninterrupted reference session failed: " + str(o0)[:800]})
+            return
+        want = read_rows(ref_path)
+        o1 = sess(path, kill_after, idx)
+        if o1.get("encoding", "").lower().replace("-", "") == "utf8":
+            ctx.count("C17.locale_helper_unavailable")  # this platform coerces the locale: nothing to judge
+            return
+        o2 = sess(path, -1, idx[::-1] if i % 2 else idx)
+        if "HELPER" in o1 or "HELPER" in o2:
+            ctx.errors.append({"case": {"fam": "locale_restart", "i": i}, "tb": "locale restart helper failed: " + str(o1.get("HELPER") or o2.get("HELPER"))})
+            return
+        ctx.count("C17.locale_restarts_judged")
+        if "ERR" in o1 or "ERR" in o2:
+            ctx.viol("session_raised", dict(det, session=1 if "ERR" in o1 else 2, exc=o1.get("ERR") or o2.get("ERR")), features=dict(feats, kind="session_raised"))
+            return
+        got = read_rows(path)
+        if not got or got[0] != want[0]:
+            ctx.viol("header_missing_or_not_first", dict(det, first_row=got[0] if got else None), features=dict(feats, kind="header_missing_or_not_first"))
+            return
+        names = [x[0] for x in got[1:]]
+        exp = {x[0]: x for x in want[1:]}
+        for k in idx:
+            s_ = LR.SUBJECTS[k]
+            if names.count(s_) != 1:
+                kind = "subject_missing_after_recovery" if names.count(s_) == 0 else "subject_duplicated_after_recovery"
+                ctx.viol(kind, dict(det, subject=s_, rows=names), features=dict(feats, kind=kind))
+                return
+        for x in got[1:]:
+            if x[0] not in exp:
+                ctx.viol("unexpected_row", dict(det, row=x), features=dict(feats, kind="unexpected_row"))
+                return
+            if x != exp[x[0]]:
+                ctx.viol("row_differs_from_uninterrupted_run", dict(det, row=x, expected=exp[x[0]]), features=dict(feats, kind="row_differs_from_uninterrupted_run"))
+                return
+        ctx.nontrivial("locale_restart", json.dumps(det, sort_keys=True))
+    finally:
+        shutil.rmtree(d, ignore_errors=True)
+
+
 def run(case, ctx):
     fam = case["fam"]
     if fam == "big_file":
         return big_file_sessions(ctx, case["i"])
+    if fam == "locale_restart":
+        return locale_restart(ctx, case["i"])
     if fam == "hashseed":
         return hashseed_sessions(ctx, case["i"])
     if fam == "crash":
